@@ -187,19 +187,12 @@ func (s *ReverseSuffixSearcher) Find(haystack []byte) *Match {
 		return nil
 	}
 
-	// For matchStartZero (unanchored .* prefix), match starts at the beginning
-	// of the line containing the LAST suffix — .* (AnyCharNotNL) cannot cross \n.
+	// For matchStartZero (`.*literal`), .* (AnyCharNotNL) cannot cross \n: the
+	// leftmost match lies on the FIRST line that contains the suffix and runs from
+	// the start of that line to the LAST suffix on it. FindAt implements exactly
+	// that (taking the last suffix of the whole haystack would skip earlier lines).
 	if s.matchStartZero {
-		lastPos := bytes.LastIndex(haystack, s.suffixBytes)
-		if lastPos == -1 {
-			return nil
-		}
-		revEnd := lastPos + s.suffixLen
-		if revEnd > len(haystack) {
-			revEnd = len(haystack)
-		}
-		matchStart := lineStartBefore(haystack, 0, lastPos)
-		return NewMatch(matchStart, revEnd, haystack)
+		return s.FindAt(haystack, 0)
 	}
 
 	// For bounded wildcards (e.g., \d+\.\d+\.35), find the FIRST suffix
@@ -225,7 +218,7 @@ func (s *ReverseSuffixSearcher) Find(haystack []byte) *Match {
 		matchStart := s.reverseDFA.SearchReverse(revCache, haystack, 0, revEnd)
 		if matchStart >= 0 {
 			// Forward verification: get correct greedy match end.
-			matchEnd := s.forwardDFA.SearchAt(fwdCache, haystack, matchStart)
+			matchEnd := s.forwardDFA.SearchAtAnchored(fwdCache, haystack, matchStart)
 			if matchEnd >= 0 {
 				return NewMatch(matchStart, matchEnd, haystack)
 			}
@@ -318,9 +311,15 @@ func (s *ReverseSuffixSearcher) FindAt(haystack []byte, at int) *Match {
 
 		// Use reverse DFA with anti-quadratic guard to find match START position
 		matchStart := s.reverseDFA.SearchReverseLimited(revCache, haystack, at, suffixEnd, minStart)
+		if matchStart >= 0 && minStart > at {
+			// The limited scan stops at minStart, so the start it reports may be
+			// truncated. A match is certain now: rescan once without the guard to
+			// get the real leftmost start (bounded by this match, so still linear).
+			matchStart = s.reverseDFA.SearchReverse(revCache, haystack, at, suffixEnd)
+		}
 		if matchStart >= 0 {
 			// Forward verification: get correct greedy match end (Issue #124)
-			matchEnd := s.forwardDFA.SearchAt(fwdCache, haystack, matchStart)
+			matchEnd := s.forwardDFA.SearchAtAnchored(fwdCache, haystack, matchStart)
 			if matchEnd >= 0 {
 				return NewMatch(matchStart, matchEnd, haystack)
 			}
@@ -415,8 +414,12 @@ func (s *ReverseSuffixSearcher) findIndicesAtImpl(haystack []byte, at int, fwdCa
 		}
 
 		matchStart := s.reverseDFA.SearchReverseLimited(revCache, haystack, at, suffixEnd, minStart)
+		if matchStart >= 0 && minStart > at {
+			// Limited scan may truncate the start at minStart - see FindAt.
+			matchStart = s.reverseDFA.SearchReverse(revCache, haystack, at, suffixEnd)
+		}
 		if matchStart >= 0 {
-			matchEnd := s.forwardDFA.SearchAt(fwdCache, haystack, matchStart)
+			matchEnd := s.forwardDFA.SearchAtAnchored(fwdCache, haystack, matchStart)
 			if matchEnd >= 0 {
 				return matchStart, matchEnd, true
 			}
